@@ -9,7 +9,7 @@
      - hence, for streams free of exact ties, a predict call and a whole history of predict calls report the same
        records (ids included: [commit] issues them) and reach the same tracker state for every shard count and
        every schedule.
-   For SORT the voting assumption is discharged below (Section C05_Sort). In the generic theorems it is a
+   For SORT and VisualSORT the voting assumption is discharged below (Sections C05_Sort, C05_Visual). In the generic theorems it is a
    hypothesis: on tie-free streams the voting engines are invariant under permutation of
    the stream; that is proved about the voting models in the developments of C17/C02 (another builder),
    [winners_perm_invariant] is exactly their statement. The sequential commit is a function of the abstract
@@ -17,6 +17,9 @@
 From Coq Require Import List NArith Bool Arith Permutation.
 From Coq Require Import ZArith.
 From Similari Require Import Model.DistProto Proofs.DistProtoProofs Model.Assign Proofs.AssignProofs Proofs.AssignPerm Proofs.C05Sort.
+From Coq Require Import QArith.
+From Similari Require Import Model.Voting Proofs.VotingProofs Proofs.C05Visual.
+Local Close Scope Q_scope.
 Import ListNotations.
 
 Section C05.
@@ -151,6 +154,67 @@ Section C05_Sort.
              TS IN OUT store_of cands_of commit weight_of km thr).
   Qed.
 End C05_Sort.
+
+(* ---------------------------------------------------------------------------------------------------------
+   VisualSORT (appearance stage first, Hungarian positional stage on the rest): the hypothesis is discharged by
+   Props/C17.v visual_winners_perm_invariant (Proofs/VotingProofs.v). Remaining hypotheses: positive threshold,
+   [km_ok] for the positional stage's oracle, and tie-freeness of each call ([visual_tie_free]: the appearance
+   stage compares pairwise distinct keys, the positional stage on the remaining pairs is hung_tie_free).
+   [weight_of] / [feat_of] read the positional weight and the feature distance off a metric value. *)
+Section C05_Visual.
+  Variable track : Type.
+  Variable OBS : Type.
+  Variable MV : Type.
+  Variable tid : track -> N.
+  Variable compatible : track -> track -> bool.
+  Variable baked : track -> status.
+  Variable observations : track -> N -> option (list OBS).
+  Variable metric : N -> track -> OBS -> track -> OBS -> option MV.
+  Variable postprocess : track -> list (res MV) -> list (res MV).
+  Variable cls : N.
+  Variable ob : bool.
+  Variable TS : Type.
+  Variable IN : Type.
+  Variable OUT : Type.
+  Variable store_of : TS -> list track.
+  Variable cands_of : TS -> IN -> TS * list track.
+  Variable commit : TS -> list track -> option (list (N * (N * vtype))) -> TS * OUT.
+  Variable weight_of : MV -> option Z.
+  Variable feat_of : MV -> option Q.
+  Variable km : matrix -> list nat.
+  Variable thr : Z.
+  Variable maxd : Q.
+  Variable minv : nat.
+
+  Notation WT := (option (list (N * (N * vtype)))).
+  Notation WINNERS := (visual_winners_of MV weight_of feat_of km thr maxd minv).
+  Notation TIEFREE := (visual_tie_free MV weight_of feat_of thr maxd minv).
+  Notation PREDICT := (predict_rel track OBS MV tid compatible baked observations metric postprocess cls ob
+                                   TS IN OUT WT store_of cands_of WINNERS commit).
+  Notation HISTORY := (history_rel track OBS MV tid compatible baked observations metric postprocess cls ob
+                                   TS IN OUT WT store_of cands_of WINNERS commit).
+
+  Theorem predict_shard_schedule_independent_visual :
+    forall n1 n2 ts inp t1 o1 t2 o2,
+      (0 < thr)%Z -> km_ok km -> 0 < n1 -> 0 < n2 ->
+      tie_free_call track OBS MV tid compatible baked observations metric postprocess cls ob TS IN store_of cands_of TIEFREE ts inp ->
+      PREDICT n1 ts inp t1 o1 -> PREDICT n2 ts inp t2 o2 -> t1 = t2 /\ o1 = o2.
+  Proof.
+    exact (predict_independent_visual_lemma track OBS MV tid compatible baked observations metric postprocess cls ob
+             TS IN OUT store_of cands_of commit weight_of feat_of km thr maxd minv).
+  Qed.
+
+  Theorem history_shard_schedule_independent_visual :
+    forall n1 n2 ins ts t1 os1 t2 os2,
+      (0 < thr)%Z -> km_ok km -> 0 < n1 -> 0 < n2 ->
+      tie_free_history track OBS MV tid compatible baked observations metric postprocess cls ob
+                       TS IN OUT WT store_of cands_of WINNERS commit TIEFREE n1 ts ins ->
+      HISTORY n1 ts ins t1 os1 -> HISTORY n2 ts ins t2 os2 -> t1 = t2 /\ os1 = os2.
+  Proof.
+    exact (history_independent_visual_lemma track OBS MV tid compatible baked observations metric postprocess cls ob
+             TS IN OUT store_of cands_of commit weight_of feat_of km thr maxd minv).
+  Qed.
+End C05_Visual.
 
 (* Non-vacuity: the same query on a 1-shard and on a 3-shard placement of the same four tracks, different
    worker orders, delivers the same multiset (here: the same number of results, not all empty). *)
